@@ -56,6 +56,7 @@ def bridgeStepC (c : BridgeC) : BridgeAct → BridgeC × Out
   | .send p => (c, if c.openPorts.contains p then .delivered else .dropped)
   | .occupy p => if c.free p then ({ c with others := p :: c.others }, .ok) else (c, .busy)
   | .release p => ({ c with others := c.others.filter (· != p) }, .ok)
+  | .foreign => (c, .ok)
 
 def bridgeInitC (ports : List Nat) : BridgeC := { ports, table := [], openT := [], next := 0, running := false, others := [] }
 
